@@ -8,18 +8,15 @@ SOURCES = ['src/opus.c', 'src/opus_decoder.c', 'include/opus.h', 'include/opus_d
            'celt/mathops.h', 'celt/float_cast.h']
 REQUIRED_THEOREMS = ['OpusProps.C19.' + t for t in (
     'degenerate_noop', 'channel_independent', 'passthrough_any_arith', 'passthrough',
-    'bounded_sign_excursion_partial', 'gain_frame_condition', 'gain_ctl_range')]
-UNPROVED = ['bounded (P1, full statement): for every finite input every output sample of opus_pcm_soft_clip lies in [-1, 1] '
-            '(over an ordered field). Proved only for the per-excursion map (bounded_sign_excursion_partial); missing: the '
-            'continuation of the previous frame\'s curve, the frame-start ramp and the invariant of the loop over excursions. '
-            'Searched on the implementation in binary32 (S4).',
-            'sign_preserved (P1, full statement): no output sample has the opposite sign of its input (over an ordered field). '
-            'Same partial result / same missing pieces. In binary32 the statement is FALSE for near-zero samples inside the '
-            'frame-start ramp (see the softclip-sign-residue witness class): the rounding residue of `offset -= delta` '
-            '(src/opus.c:123-128) is added to samples smaller than itself.',
-            'gain: that opus_decode_frame computes ret / rangeFinal / the un-scaled PCM before it reads decode_gain is a '
-            'structural fact of the source (lines 646-660 are the last statements before the return); the model states the '
-            'frame condition of that final block only, the twin-decoder search (S4 gainsearch) checks it end to end']
+    'bounded_sign_preserved', 'bounded', 'sign_preserved', 'ramp_term_exact', 'gain_frame_condition', 'gain_ctl_range')]
+UNPROVED = ['bounded / sign_preserved in BINARY32 arithmetic: proved over every linearly ordered field (exact arithmetic, any '
+            'boost 0 <= eps < 1, whole call incl. continuation, ramp and the loop over excursions), not for rounded '
+            'arithmetic (Lean has no IEEE-754 error analysis); in binary32 both are searched on the implementation (S4, strict '
+            'predicates) and the binary32 instantiation of the same definitions is compared bit for bit with the code',
+            'gain: that opus_decode_frame computes ret / rangeFinal / the un-scaled PCM before it reads decode_gain, and that '
+            'the recursive cross-fade calls run with the gain cleared (fix 7e7e38ec), are structural facts of the source; the '
+            'model states the frame condition of the final gain block only, the twin-decoder search (S4 gainsearch + the '
+            'mode-switching corpus) checks it end to end']
 RULE = ('exhaustive: degenerate argument combinations (N, C in -2..2, null pointers), every (N, C) with N <= 6, C <= 8 on three '
         'signal shapes over two consecutive frames, all ordered pairs of 25 special values (+-0, +-1, +-2, neighbours by one '
         'ulp, subnormals, huge) as 3- and 2-sample frames; OPUS_SET_GAIN accept/reject at the int16 boundary and the gain '
@@ -30,7 +27,7 @@ RULE = ('exhaustive: degenerate argument combinations (N, C in -2..2, null point
         'occasionally a carried-over non-zero coefficient and non-finite samples. A case is distinct by its '
         '(operation, outcome class) pair; classes: ignored / same / same-carry / clipped / clipped-carry.')
 NOT_COVERED = ['|out| <= 1 and sign preservation in binary32 arithmetic are not theorems (Lean has no IEEE-754 error analysis); '
-               'over an ordered field only the per-excursion map is proved; both are searched on the implementation',
+               'they are theorems over every ordered field and are searched on the implementation in binary32',
                'the Lean `Float32` operations used by the executable instantiation are opaque to the kernel (they run the '
                'host FPU); that instantiation is compared bit for bit with the compiled C on every run, the theorems marked '
                '"any arithmetic" apply to it, the field theorems do not',
@@ -216,15 +213,16 @@ def replay(ctx, obj):
     return 0
 
 
-LEVEL_TEXT = ('partial proof: opus_pcm_soft_clip is transcribed once, generically over its sample operations; kernel-checked for '
-              'EVERY instantiation (so also the binary32 one that is compared bit for bit with the compiled C): degenerate '
-              'arguments are ignored, the C-channel call is exactly C single-channel calls on the de-interleaved data with '
-              'that channel\'s memory, in-range input with cleared memory passes through unchanged (given the four comparisons '
-              'the code makes on an in-range sample); over any ordered field: pass-through for |x| <= 1 and the per-excursion '
-              'map x + a*x*x with the code\'s coefficient (incl. the 2^-22 boost) is bounded by 1 and sign-preserving; gain '
-              'frame condition and ctl range on the model. The full |out| <= 1 / sign clauses and the gain relations end to '
-              'end are searched on the implementation (S4), not proved.')
+LEVEL_TEXT = ('proof: opus_pcm_soft_clip is transcribed once, generically over its sample operations; kernel-checked for EVERY '
+              'instantiation (so also the binary32 one that is compared bit for bit with the compiled C): degenerate arguments '
+              'are ignored, the C-channel call is exactly C single-channel calls on the de-interleaved data with that '
+              'channel\'s memory, in-range input with cleared memory passes through unchanged (given the four comparisons the '
+              'code makes on an in-range sample); over every linearly ordered field and every boost 0 <= eps < 1, for the whole '
+              'call and any channel count: every output sample lies in [-1, 1], no sample changes sign (strict), the carried '
+              'coefficients stay within (1+eps)/4 (so the statement chains over frames), pass-through for |x| <= 1, the ramp term '
+              'is exactly 0 at the peak; gain frame condition and ctl range on the model. Binary32 rounding is not covered by '
+              'the field theorems: |out| <= 1 / sign in floats and the gain relations end to end are searched on the '
+              'implementation (S4, corpus of the two fixed defects first).')
 LEVEL_NOTE = ('trusted: Lean kernel; Lean Float32 = host binary32 for the executable model only; correspondence harness and line '
-              'protocol. Not proved: bounded / sign_preserved for the whole algorithm (only the excursion map), anything about '
-              'rounded arithmetic.')
+              'protocol. Not proved: anything about rounded arithmetic (bounded / sign_preserved hold over ordered fields).')
 TECHNIQUE = 'Lean 4 theorems over a generic (any-arithmetic) transcription + ordered-field instance; bit-exact Float32 differential run'
